@@ -18,6 +18,7 @@ import (
 	"runtime"
 	"sort"
 	"strings"
+	"sync"
 
 	"github.com/osteele/liquid"
 )
@@ -118,12 +119,16 @@ type renderSetup struct {
 // that point (render.Context.Bindings).  Snaps are placed in pairs around loops: what a loop variable (or forloop)
 // is bound to after the loop must be the very value it was bound to before.
 type snapRecorder struct {
+	mu      sync.Mutex
+	off     bool // (set before the concurrent renders: their snaps would interleave)
 	byLabel map[string][]any
 }
 
 func (sr *snapRecorder) tag(c render.Context) (string, error) {
 	f := strings.Fields(c.TagArgs())
-	if len(f) == 2 {
+	sr.mu.Lock()
+	defer sr.mu.Unlock()
+	if len(f) == 2 && !sr.off {
 		sr.byLabel[f[1]] = append(sr.byLabel[f[1]], c.Bindings()[f[0]])
 	}
 	return "", nil
@@ -421,6 +426,38 @@ func doRender(rs *renderSetup, entry string) result {
 				again := render()
 				if again.Outcome != first.Outcome || !bytes.Equal(again.Out, first.Out) {
 					return result{Outcome: "unstable", Out: again.Out, Msg: fmt.Sprintf("render %d of the same template and bindings differs from the first: %q vs %q", i+1, truncate(string(again.Out), 120), truncate(string(first.Out), 120))}
+				}
+			}
+			// ... and so must renders of it that run at the same time, sharing the bindings (what C04 promises; a
+			// compiled node that keeps per-render state shows up here as text from another render)
+			if rs.repeat > 1 {
+				rs.snaps.mu.Lock()
+				rs.snaps.off = true
+				rs.snaps.mu.Unlock()
+				const workers, rounds = 6, 3
+				start := make(chan struct{})
+				diffs := make(chan result, workers)
+				var wg sync.WaitGroup
+				for w := 0; w < workers; w++ {
+					wg.Add(1)
+					go func() {
+						defer wg.Done()
+						<-start
+						for k := 0; k < rounds; k++ {
+							again := guard(render)
+							if again.Outcome != first.Outcome || !bytes.Equal(again.Out, first.Out) {
+								diffs <- again
+								return
+							}
+						}
+					}()
+				}
+				close(start)
+				wg.Wait()
+				select {
+				case again := <-diffs:
+					return result{Outcome: "unstable", Out: again.Out, Msg: fmt.Sprintf("a render of the same template and bindings running concurrently with others differs from the render alone: %s %q vs %q", again.Outcome, truncate(string(again.Out), 120), truncate(string(first.Out), 120))}
+				default:
 				}
 			}
 			return first
